@@ -68,7 +68,11 @@ func Env() []string {
 		}
 		env = append(env, kv)
 	}
-	return append(env, "GOFLAGS=-mod=mod", "GOPROXY=off", "GOSUMDB=off", "GOTOOLCHAIN=local", "GOWORK=off", "CGO_ENABLED=0")
+	env = append(env, "GOFLAGS=-mod=mod", "GOPROXY=off", "GOSUMDB=off", "GOTOOLCHAIN=local", "GOWORK=off", "CGO_ENABLED=0")
+	if RepoRoot != "/repo" {
+		env = append(env, "VERIF_REPO="+RepoRoot) // development: the generator harness writes it into the generated go.mod
+	}
+	return env
 }
 
 // LoadModule loads the packages matched by patterns in dir with full syntax
